@@ -50,6 +50,86 @@ func (n numLit) term() string {
 	return emit.Ctor("JNum", emit.Z(z.Int64()), emit.Str(frac))
 }
 
+// strLit is a JSON string written with a chosen spelling (escapes \/ \uXXXX
+// \" \\ surrogate pairs ...). It marshals as that literal; its AST value is the
+// string it was spelled FROM (known by construction, no decoder involved).
+type strLit struct {
+	val string
+	lit string
+}
+
+func (s strLit) MarshalJSON() ([]byte, error) { return []byte(s.lit), nil }
+
+// escStr spells s as a JSON string literal, escaping each character with
+// probability num/den where JSON leaves a choice.
+func (g gen) escStr(s string, num, den int) strLit {
+	var sb strings.Builder
+	sb.WriteByte('"')
+	for _, r := range s {
+		esc := g.r.Chance(num, den)
+		switch {
+		case r == '"' || r == '\\':
+			if esc {
+				fmt.Fprintf(&sb, "\\u%04x", r)
+			} else {
+				sb.WriteByte('\\')
+				sb.WriteRune(r)
+			}
+		case r < 0x20:
+			short := map[rune]string{'\n': "\\n", '\t': "\\t", '\r': "\\r", '\b': "\\b", '\f': "\\f"}
+			if sh, ok := short[r]; ok && !esc {
+				sb.WriteString(sh)
+			} else {
+				fmt.Fprintf(&sb, "\\u%04X", r)
+			}
+		case r == '/' && esc:
+			sb.WriteString("\\/")
+		case esc && r < 0x10000:
+			if g.r.Bool() {
+				fmt.Fprintf(&sb, "\\u%04x", r)
+			} else {
+				fmt.Fprintf(&sb, "\\u%04X", r)
+			}
+		case esc:
+			r -= 0x10000
+			fmt.Fprintf(&sb, "\\u%04x\\u%04x", 0xd800+(r>>10), 0xdc00+(r&0x3ff))
+		default:
+			sb.WriteRune(r)
+		}
+	}
+	sb.WriteByte('"')
+	return strLit{s, sb.String()}
+}
+
+// maybeEsc: a third of the strings are written with escapes. The exact string
+// "true" is left alone: oidc.Bool compares the raw bytes with `"true"`, so an
+// escaped spelling reads false there (zero value; outside the AST, see notes).
+func (g gen) maybeEsc(s string) any {
+	if s == "true" || !g.r.Chance(1, 3) {
+		return s
+	}
+	return g.escStr(s, 1, 2)
+}
+
+// tagStr: a BCP 47 candidate assembled from known and unknown subtags.
+func (g gen) tagStr() string {
+	if g.r.Chance(1, 5) {
+		return drv.Pick(g.r, []string{"i-klingon", "en-GB-oed", "zh-min-nan", "x-private", "de-x-private", "art-lojban",
+			"abcdefghi-DE", "de-abcdefghi", "en-US-u-co-phonebk", "de-DE-1996", "iw", "und-DE", "und", "EN-us", "en_US"})
+	}
+	t := drv.Pick(g.r, []string{"en", "de", "fr", "zh", "sr", "xyz", "zz", "qaa", "e"})
+	if sc := drv.Pick(g.r, []string{"", "", "Latn", "Hant", "Abcd"}); sc != "" {
+		t += "-" + sc
+	}
+	if rg := drv.Pick(g.r, []string{"", "DE", "CH", "US", "YY", "001", "999"}); rg != "" {
+		t += "-" + rg
+	}
+	if va := drv.Pick(g.r, []string{"", "", "", "geneva", "1996", "abcde"}); va != "" {
+		t += "-" + va
+	}
+	return t
+}
+
 // spell writes the integer t in one of the JSON spellings of that number.
 func (g gen) spell(t int64) (numLit, string) {
 	plain := strconv.FormatInt(t, 10)
@@ -118,6 +198,8 @@ func jterm(v any) string {
 	switch x := v.(type) {
 	case numLit:
 		return x.term()
+	case strLit:
+		return emit.Ctor("JStr", emit.Str(x.val))
 	case nil:
 		return "JNull"
 	case bool:
@@ -552,10 +634,15 @@ func (o *oracles) addDoc(doc any) {
 		switch x := v.(type) {
 		case string:
 			o.addString(x)
+		case strLit:
+			o.addString(x.val)
 		case []any:
 			for _, e := range x {
-				if s, ok := e.(string); ok {
+				switch s := e.(type) {
+				case string:
 					o.addString(s)
+				case strLit:
+					o.addString(s.val)
 				}
 			}
 		}
@@ -590,7 +677,7 @@ func (o *oracles) term() string {
 type gen struct{ r drv.Rand }
 
 var strPool = []string{"", "a", "alice", "https://issuer.example.com", "client-1", "user:42", "a b", " lead", "trail ",
-	"true", "false", "null", "0", "x\"y\\z", "<script>", "ünï©ode", "日本", "2023-01-02T03:04:05Z", "en", "openid", "e\tf"}
+	"true", "false", "null", "0", "x\"y\\z", "<script>", "ünï©ode", "日本", "\U0001F600 ok", "https://rp.example/cb?a=1&b=2", "2023-01-02T03:04:05Z", "en", "openid", "e\tf"}
 
 func (g gen) str() string {
 	switch g.r.IntN(4) {
@@ -674,7 +761,7 @@ func (g gen) jsonVal(depth int) any {
 	case 3:
 		return drv.Pick(g.r, []float64{1.5, -0.25, 0, 1, -1, 3.125, 1e15, 9007199254740992})
 	case 4, 5:
-		return g.str()
+		return g.maybeEsc(g.str())
 	case 6:
 		a := make([]any, g.r.IntN(4))
 		for i := range a {
@@ -719,10 +806,10 @@ func (g gen) typedJSON(kind string) any {
 	}
 	switch kind {
 	case "KStr":
-		return g.nonEmptyStr()
+		return g.maybeEsc(g.nonEmptyStr())
 	case "KTime":
 		if g.r.Chance(1, 4) {
-			return drv.Pick(g.r, rfcPool)
+			return g.maybeEsc(drv.Pick(g.r, rfcPool))
 		}
 		if g.r.Chance(1, 6) {
 			return g.fractional(g.timeVal())
@@ -731,19 +818,27 @@ func (g gen) typedJSON(kind string) any {
 		return n
 	case "KAud":
 		if g.r.Bool() {
-			return g.str()
+			return g.maybeEsc(g.str())
 		}
-		return anyStrs(g.strs(g.str))
+		return g.anyStrs(g.strs(g.str))
 	case "KStrs":
-		return anyStrs(g.strs(g.str))
+		return g.anyStrs(g.strs(g.str))
 	case "KSDA":
-		return strings.Join(g.strs(g.word), " ")
+		return g.maybeEsc(strings.Join(g.strs(g.word), " "))
 	case "KBool":
 		return g.r.Bool()
 	case "KBoolS":
 		return drv.Pick(g.r, []any{true, false, "true", "false"})
 	case "KLocale":
-		return drv.Pick(g.r, localePool)
+		if g.r.Bool() {
+			return g.maybeEsc(g.tagStr())
+		}
+		return g.maybeEsc(drv.Pick(g.r, localePool))
+	case "KLocales":
+		if g.r.Bool() {
+			return g.maybeEsc(strings.Join(g.strs(g.tagStr), " "))
+		}
+		return g.anyStrs(g.strs(g.tagStr))
 	case "KActor":
 		return generic(toRealActor(g.actor(1)))
 	case "KAddr":
@@ -754,13 +849,13 @@ func (g gen) typedJSON(kind string) any {
 	return nil
 }
 
-func anyStrs(s []string) any {
+func (g gen) anyStrs(s []string) any {
 	if s == nil {
 		return nil
 	}
 	out := make([]any, len(s))
 	for i, x := range s {
-		out[i] = x
+		out[i] = g.maybeEsc(x)
 	}
 	return out
 }
@@ -989,6 +1084,14 @@ var altForms = []struct {
 	{"lit-point-zero", numLit("1700000000.0")}, {"lit-frac-exp-nonint", numLit("1.7000000001e9")}, {"lit-neg-zero", numLit("-0")},
 	{"lit-neg-exp", numLit("17000000000e-1")}, {"lit-big", numLit("2.53402300799e11")}, {"lit-2p53", numLit("9.007199254740992e15")},
 	{"lit-neg-frac-exp", numLit("-1.5e3")}, {"lit-small", numLit("1e-3")},
+	{"esc-slash", strLit{"https://rp.example/cb", `"https:\/\/rp.example\/cb"`}}, {"esc-amp", strLit{"a=1&b=2", `"a=1\u0026b=2"`}},
+	{"esc-quote", strLit{`say "hi" \ bye`, `"say \"hi\" \\ bye"`}}, {"esc-surrogate", strLit{"\U0001F600x", `"\ud83d\ude00x"`}},
+	{"esc-all", strLit{"a b", `"\u0061\u0020\u0062"`}}, {"esc-rfc3339", strLit{"2023-01-02T03:04:05Z", `"2023-01-02T03:04:05\u005a"`}},
+	{"esc-locale", strLit{"de-CH en", `"de\u002dCH\u0020en"`}},
+	{"esc-arr", []any{strLit{"https://rp.example/cb", `"https:\/\/rp.example\/cb"`}, strLit{"de-CH", `"de\u002DCH"`}}},
+	{"str-locales-compound", "xyz-DE de-CH-geneva en-Abcd de-CH abcdefghi-DE i-klingon x-private en-GB-oed de-DE-1996 und-DE"},
+	{"arr-locales-compound", []any{"xyz-DE", "de-CH-geneva", "en-Abcd", "fr-FR", "de-abcdefghi", "zh-min-nan", "en-US-u-co-phonebk"}},
+	{"str-locale-compound-unknown", "en-Abcd"}, {"str-locale-compound-unknown2", "xyz-DE"},
 	{"str-empty", ""}, {"str", "abc"}, {"str-spaces", "a b  c"}, {"str-rfc3339", "2023-01-02T03:04:05Z"},
 	{"str-rfc3339-offset", "2023-11-14T22:13:20+02:00"}, {"str-rfc3339-zero", "0001-01-01T00:00:00Z"},
 	{"str-badtime", "2023-13-02T03:04:05Z"}, {"str-locale", "de-CH"}, {"str-locales", "en de-CH xx-YY und"},
@@ -1027,6 +1130,14 @@ func codecCases(w *emit.Writer, r drv.Rand, n int) {
 			decK(w, "KTime", a.tag, a.v, nil)
 		}
 	}
+	// every string spelling / compound language tag through every stand-alone decoder, always
+	for _, a := range altForms {
+		if strings.HasPrefix(a.tag, "esc-") || strings.Contains(a.tag, "compound") {
+			for _, k := range []string{"KAud", "KTime", "KBoolS", "KSDA", "KLocales"} {
+				decK(w, k, a.tag, a.v, nil)
+			}
+		}
+	}
 	// the Fxx-C12-1 input: custom keys that encoding/json folds onto set members
 	for _, ti := range []tyInfo{types[1], types[7]} {
 		vals := make([]fv, len(ti.Schema))
@@ -1052,6 +1163,9 @@ func codecCases(w *emit.Writer, r drv.Rand, n int) {
 		default:
 			k := drv.Pick(r, []string{"KAud", "KTime", "KBoolS", "KSDA", "KLocales"})
 			a := drv.Pick(r, altForms)
+			if r.Chance(1, 3) {
+				a.tag, a.v = "typed", g.typedJSON(k)
+			}
 			decK(w, k, a.tag, a.v, nil)
 		}
 	}
@@ -1129,10 +1243,11 @@ func decCase(w *emit.Writer, g gen, ti tyInfo) {
 			a := drv.Pick(r, altForms)
 			if r.Chance(2, 5) { // a form the member kind is documented to read
 				a.tag, a.v = "typed", g.typedJSON(f.Kind)
-				if _, lit := a.v.(numLit); !lit {
-					a.v = generic(a.v)
-				} else {
+				switch a.v.(type) {
+				case numLit:
 					a.tag = "typed-numlit"
+				case strLit:
+					a.tag = "typed-strlit"
 				}
 			}
 			m[f.Name] = a.v
